@@ -362,3 +362,22 @@ Definition D_AFTER_MAX : Z := D_AFTER_MAX_yof.
 
 (** derived [Ord]/[Eq] on NaiveDate compare [yof]; on IsoWeek compare [ywf] *)
 Definition d_cmp (a b : Z) : Z := cmpZ a b.
+
+(** * Helpers used by format::Parsed (added with C14)
+    src/weekday.rs [Weekday::days_since] on weekday numbers from Monday (0..6, [*self as u32]) *)
+Definition wd_days_since (lhs rhs : Z) : R Z :=
+  if lhs <? rhs then let* a := add_u32 7 lhs in sub_u32 a rhs else sub_u32 lhs rhs.
+(** [NaiveDate::weeks_from(&self, day: Weekday) -> i32]:
+    (self.ordinal() as i32 - self.weekday().days_since(day) as i32 + 6) / 7 *)
+Definition weeks_from (d day : Z) : R Z :=
+  let* wd := d_weekday d in
+  let* ds := wd_days_since wd day in
+  let* a := sub_i32 (as_i32 (d_ordinal d)) (as_i32 ds) in
+  let* b := add_i32 a 6 in
+  div_i32 b 7.
+(** [Datelike::quarter] (provided method): (self.month() - 1).div_euclid(3) + 1 *)
+Definition d_quarter (d : Z) : R Z :=
+  let* m := d_month d in
+  let* a := sub_u32 m 1 in
+  let* q := div_euclid in_u32 a 3 in
+  add_u32 q 1.
